@@ -208,6 +208,7 @@ pub mod auto_salts {
         }
         let st = crate::seams::entropy_state();
         *GEN.lock().unwrap_or_else(|e| e.into_inner()) = Some(Rng::new(crate::rng::mix(&[st[0], st[1], st[2], st[3], 0x5a17])));
+        sd_jwt_rs::utils::SALTS.clear_poison();
         sd_jwt_rs::utils::SALTS.lock().unwrap_or_else(|e| e.into_inner()).clear();
     }
     pub fn top_up() {
@@ -441,6 +442,46 @@ impl World {
     }
 
     // ---- stub peers -----------------------------------------------------------------------
+
+    /// The same credential as another issuer implementation would have produced it: every `_sd`
+    /// list of the signed payload in another order (the draft allows any), signed by the same key.
+    /// Digests inside disclosure values are left alone (they are covered by their digests).
+    pub fn resign_with_permuted_sd(&mut self, sdjwt: &str, fmt: Fmt, key: &str, alg: &str, seed: u64) -> Option<String> {
+        fn perm(v: &mut Value, rng: &mut crate::rng::Rng) {
+            match v {
+                Value::Object(o) => {
+                    for (k, c) in o.iter_mut() {
+                        if k == "_sd" {
+                            if let Value::Array(a) = c {
+                                match rng.usize(3) {
+                                    0 => a.reverse(),
+                                    _ => rng.shuffle(a),
+                                }
+                            }
+                        } else {
+                            perm(c, rng);
+                        }
+                    }
+                }
+                Value::Array(a) => a.iter_mut().for_each(|c| perm(c, rng)),
+                _ => {}
+            }
+        }
+        let mut m = Message::parse(sdjwt, fmt)?;
+        let mut p = Value::Object(payload_of(&m)?);
+        let mut rng = crate::rng::Rng::new(seed);
+        perm(&mut p, &mut rng);
+        let typ = model::decode_jwt_part(&m.h).and_then(|h| h.get("typ").and_then(Value::as_str).map(str::to_string));
+        let t = self.byz_sign(key, alg, typ.as_deref(), &p)?;
+        let v: Vec<&str> = t.split('.').collect();
+        if v.len() != 3 {
+            return None;
+        }
+        m.h = v[0].into();
+        m.p = v[1].into();
+        m.s = v[2].into();
+        m.serialize(fmt)
+    }
 
     /// Byzantine / harness signer: sign arbitrary claims with a roster key (recorded in
     /// `signed_by`). `typ` None = no typ header.
